@@ -513,6 +513,9 @@ func runC01(ctx *core.Ctx) {
 	if only == "repeat" {
 		c01Repeats(ctx)
 	}
+	if only == "kinds" {
+		c01Kinds(ctx, sch, rich)
+	}
 	if only == "files" {
 		c01Files(ctx)
 	}
@@ -565,6 +568,40 @@ var c01KindValues = []struct {
 // the `external: "true"` panic of validation.checkExternal was only reachable that way and was missed in round 1)
 var c01OptionSets = []int{0, 1, 1 | 4 | 16, 1 | 32 | 64 | 256, 2, 1 | 2}
 
+// c01MergeDocs: union of two placed documents (mappings merged key by key, lists element by element, b wins on leaves)
+func c01MergeDocs(a, b any) any {
+	switch x := a.(type) {
+	case M:
+		y, ok := b.(M)
+		if !ok {
+			return b
+		}
+		o := M{}
+		for k, v := range x {
+			o[k] = v
+		}
+		for k, v := range y {
+			if old, has := o[k]; has {
+				o[k] = c01MergeDocs(old, v)
+			} else {
+				o[k] = v
+			}
+		}
+		return o
+	case L:
+		y, ok := b.(L)
+		if !ok || len(y) != len(x) {
+			return b
+		}
+		o := make(L, len(x))
+		for i := range x {
+			o[i] = c01MergeDocs(x[i], y[i])
+		}
+		return o
+	}
+	return b
+}
+
 // (attribute path × node kind × position)
 func c01Kinds(ctx *core.Ctx, sch *c01Schema, rich M) {
 	paths := sch.paths(9)
@@ -588,6 +625,52 @@ func c01Kinds(ctx *core.Ctx, sch *c01Schema, rich M) {
 		ctx.Count("pos-" + pos)
 		ctx.Count(fmt.Sprintf("optset-%d", bits))
 		ctx.Add("c01load", c01Args{Req: *req, Mode: mode, Delivery: c01DrawDelivery(ctx), Shape: "kind/" + pos + "/" + p.String() + "/" + kind})
+	}
+	// related paths: the attribute's parent holds other attributes, and the stages compare / combine siblings (`name` with
+	// `external.name`, `mem_limit` with `deploy.resources.limits.memory`, …).  One value at one path never gives two
+	// siblings the same (odd) kind: place the same value at the path AND at a path that shares its parent or grandparent.
+	byParent := map[string][]c01Path{}
+	parentOf := func(p c01Path, up int) string {
+		if len(p.Steps) <= up {
+			return ""
+		}
+		return c01Path{Steps: p.Steps[:len(p.Steps)-up]}.String() + "|"
+	}
+	for _, p := range paths {
+		byParent[parentOf(p, 1)] = append(byParent[parentOf(p, 1)], p)
+	}
+	for _, p := range paths {
+		for _, kv := range c01KindValues {
+			if !full && ctx.Rng.Intn(4) != 0 {
+				continue
+			}
+			var cands []c01Path
+			cands = append(cands, byParent[parentOf(p, 1)]...)
+			if len(p.Steps) >= 2 {
+				cands = append(cands, byParent[parentOf(p, 2)]...) // uncles: `x.name` next to `x.external.name`
+			}
+			if len(cands) < 2 {
+				continue
+			}
+			q := cands[ctx.Rng.Intn(len(cands))]
+			if q.String() == p.String() {
+				continue
+			}
+			v := kv.vals[ctx.Rng.Intn(len(kv.vals))]
+			doc, ok := c01MergeDocs(sch.place(p, v), sch.place(q, c01DeepCopy(v))).(M)
+			if !ok {
+				continue
+			}
+			pos := c01Positions[ctx.Rng.Intn(len(c01Positions))]
+			req := c01Positioned(pos, doc, rich)
+			if req == nil {
+				continue
+			}
+			bits := c01OptionSets[ctx.Rng.Intn(len(c01OptionSets))]
+			applyOptionBits(req, bits)
+			ctx.Count("kind2-" + kv.kind)
+			ctx.Add("c01load", c01Args{Req: *req, Delivery: c01DrawDelivery(ctx), Shape: "kind2/" + pos + "/" + p.String() + "+" + q.String() + "/" + kv.kind})
+		}
 	}
 	for _, p := range paths {
 		for _, kv := range c01KindValues {
